@@ -554,8 +554,8 @@ func (u *Unit) havocHeap(st *State, why string) {
 		if strings.HasPrefix(k, "CH:") && u.c != nil && u.c.Flags["private_channels"] {
 			continue // the unit's channels never escape to the code being called (stated assumption of the unit)
 		}
-		if _, touched := st.heap[k]; !touched {
-			continue // first read after this point yields the new epoch's version
+		if _, touched := st.heap[k]; !touched && !u.declared[quote(k+"@0")] {
+			continue // never used so far on any path of this unit: a first read after this point yields the new epoch's version
 		}
 		u.havocFam(st, k, fams[k])
 	}
@@ -1151,6 +1151,21 @@ func (u *Unit) havocModifies(sev *Ev, mods []Clause, c *Contract) {
 				case "mapof":
 					v := sev.expr(call.Args[0])
 					u.havocMap(sev, v)
+					continue
+				case "allmaps":
+					// every Go map of the type of the argument (e.g. the child maps of all nodes of a tree)
+					v := sev.expr(call.Args[0])
+					if v.Typ != nil {
+						if mt, ok := v.Typ.Underlying().(*types.Map); ok {
+							dom, _, card, ds, _ := sev.mapFams(mt, "", SRef)
+							u.havocFam(st, dom, ds)
+							u.havocFam(st, card, arraySort(SRef, SInt))
+							for _, lf := range u.leaves(mt.Elem()) {
+								_, val, _, _, vs := sev.mapFams(mt, lf.path, lf.sort)
+								u.havocFam(st, val, vs)
+							}
+						}
+					}
 					continue
 				case "wg":
 					key := u.objKey(sev, call.Args[0])
